@@ -1,6 +1,7 @@
 package main
 
 import (
+	"encoding/json"
 	"flag"
 	"fmt"
 	"os"
@@ -48,6 +49,34 @@ func main() {
 			o.PSet = true
 		}
 		os.Exit(check.RunProperty(check.Options{Verbose: o.Verbose, PLo: o.PLo, PHi: o.PHi, PSet: o.PSet, Prop: *p, Tier: *tier, Groups: g, Workers: *workers, TimeoutMs: *to, Only: *only, Debug: *dbg, NoReplay: *norep}))
+	}
+	if os.Args[1] == "replay" && len(os.Args) >= 3 {
+		// gosym replay <file written next to a VIOLATION line>: decide the recorded harness
+		// instance again on /repo's current tree (symbolic run of that instance + counterexample
+		// replay); exit 1 and a VIOLATION line if the recorded assertion fails again.
+		b, err := os.ReadFile(os.Args[2])
+		if err != nil {
+			fmt.Println("replay:", err)
+			os.Exit(2)
+		}
+		var rec struct {
+			Property string `json:"property"`
+			Harness  string `json:"harness"`
+			HasParam bool   `json:"has_param"`
+			Param    int    `json:"param"`
+			Label    string `json:"label"`
+		}
+		if err := json.Unmarshal(b, &rec); err != nil || rec.Property == "" || rec.Harness == "" {
+			fmt.Println("replay: not a replay file")
+			os.Exit(2)
+		}
+		o := check.Options{Prop: rec.Property, Tier: "thorough", Groups: groups[rec.Property], Workers: 16, TimeoutMs: 30000,
+			Only: rec.Harness, NoEvidence: true}
+		if rec.HasParam {
+			o.PLo, o.PHi, o.PSet = rec.Param, rec.Param, true
+		}
+		fmt.Printf("replaying %s of property %s (recorded assertion: %s)\n", rec.Harness, rec.Property, rec.Label)
+		os.Exit(check.RunProperty(o))
 	}
 	fmt.Println("unknown command")
 	os.Exit(2)
